@@ -76,6 +76,11 @@ class Undecided(Exception):
     pass
 
 
+class Halt(Exception):
+    """raised by a model of an external function to end the execution normally (e.g. after the first send of an
+    endless loop)"""
+
+
 class StepLimit(Undecided):
     pass
 
@@ -135,6 +140,7 @@ class Machine(object):
         self.gcache = globals_cache if globals_cache is not None else {}
         self.cur = None
         self.externals = {}       # name -> callable(machine, args, ins) modelling an external function
+        self.overrides = {}       # same, but also replaces functions *defined* in the module (I/O helpers)
 
     # ---- helpers ----------------------------------------------------------
     def loc(self):
@@ -851,6 +857,11 @@ class Machine(object):
         else:
             self.undecided('unsupported callee')
         args = [self.operand(a) for a in ins.args]
+        if name in self.overrides:
+            res = self.overrides[name](self, args, ins)
+            if ins.dest is not None:
+                fr.regs[ins.dest] = res
+            return
         if name in mod.functions:
             fn = mod.functions[name]
             if len(args) != len(fn.params):
@@ -943,7 +954,7 @@ def sym_arg(name, w):
     return tuple(('A', name, i) for i in range(w))
 
 
-def analyse(mod, fname, make_args, max_worlds=64, max_steps=2000000, gcache=None, externals=None):
+def analyse(mod, fname, make_args, max_worlds=64, max_steps=2000000, gcache=None, externals=None, overrides=None):
     """Run `fname` in every world.  make_args() -> (args, regions) must build
     fresh argument values and regions for each execution.  Returns the list of
     World objects (status 'ok' or 'undecided')."""
@@ -965,12 +976,16 @@ def analyse(mod, fname, make_args, max_worlds=64, max_steps=2000000, gcache=None
         m = Machine(mod, regions, prefix, max_steps, gcache)
         if externals:
             m.externals = externals
+        if overrides:
+            m.overrides = overrides
         try:
             if callable(fname):
                 # a script: several calls on the same regions, one world
                 m.w.ret = fname(m, args)
             else:
                 m.w.ret = m.call(fname, args)
+        except Halt:
+            m.w.ret = None
         except Undecided as e:
             m.w.status = 'undecided'
             m.w.reason = str(e)
